@@ -31,6 +31,16 @@ def decorations(quick, seed):
                     did = '%s_e%02d' % (bn, j)
                     j += 1
                     decs.append((did, bn, progs.decorate_embed(b, did, s, e, twice), 'embed%s [%d:%d)' % (' twice' if twice else '', s, e)))
+    # an embedded struct WITHOUT any column (all members excluded), first / last member of every struct incl. nested ones
+    for bn, b in list(bases.items()):
+        k = 0
+        for (where, idx) in progs.positions(b):
+            n_here = len([1 for (w2, i2) in progs.positions(b) if w2 == where]) - 1
+            if idx not in (0, n_here):
+                continue
+            did = '%s_m%02d' % (bn, k)
+            k += 1
+            decs.append((did, bn, progs.decorate_excluded(b, did, where, idx, 'unexported', 'EMBED_NOCOLS'), 'embed without columns @%s[%d]' % ('.'.join(where) or 'top', idx)))
     # an embedded struct that carries a (non-dash) parquet tag of its own: still embedding, still equal to inlining
     for bn, b in list(bases.items()):
         top = len(b.kids)
@@ -56,6 +66,7 @@ def decorations(quick, seed):
         pick += rnd.sample(em, min(13, len(em)))
         pick += [d for d in decs if d[3].startswith('unexported-names') or d[3].startswith('embed shared')]
         pick += [d for d in decs if d[3].startswith('embed tagged')][::3]
+        pick += [d for d in decs if d[3].startswith('embed without columns')]
         decs = pick
     return bases, decs
 
